@@ -34,27 +34,23 @@ Proof. exact report_late. Qed.
 Print Assumptions C09_report_late.
 
 (* Clauses 1+2, the other direction: every failing critical call whose result is taken during a
-   transition makes the transition return a hook error that names the trigger and that call —
-   with the one exception stated in the second disjunct: an enter_<state> failure disappears from
-   the error when after_<event> fails too. *)
+   transition makes the transition return a hook error that names the trigger and that call. *)
 Theorem C09_critical_failure_reported : forall hooks orc e b s s' t r d i,
   transition hooks orc e b s = (s', t, r) -> dst_of e (e_st s) = Some d -> r <> RCrash ->
   In i (collects t) -> critfail i = true ->
-  exists l, r = RHook l /\
-    ((exists m f, In (PE m f) l /\ In i (wf_calls f)) \/
-     (exists f f', In (PE (MAfter e) f') l /\ In i (wf_calls f) /\ ~ In (PE (MEnter d) f) l)).
+  exists l m f, r = RHook l /\ In (PE m f) l /\ In i (wf_calls f).
 Proof. exact critical_failure_reported. Qed.
 Print Assumptions C09_critical_failure_reported.
 
-(* "reported to the caller" at full strength is false for enter_<state> (finding C09-c) *)
-Definition C09_enter_reported_statement : Prop :=
-  forall hooks orc e b s s' t l d i p,
-    transition hooks orc e b s = (s', t, RHook l) -> dst_of e (e_st s) = Some d ->
-    In (TCollect i p) t -> critfail i = true -> fst p = MEnter d ->
-    exists f, In (PE (MEnter d) f) l.
-Theorem C09_enter_reported_refuted : ~ C09_enter_reported_statement.
-Proof. exact enter_reported_refuted. Qed.
-Print Assumptions C09_enter_reported_refuted.
+(* In particular a critical failure at enter_<state> is in the returned error whether or not
+   after_<event> fails too (former finding C09-c, repaired: after_event joins its errors with the
+   one enter_state left). *)
+Theorem C09_enter_reported : forall hooks orc e b s s' t l d i p,
+  transition hooks orc e b s = (s', t, RHook l) -> dst_of e (e_st s) = Some d ->
+  In (TCollect i p) t -> critfail i = true -> fst p = MEnter d ->
+  exists f, In (PE (MEnter d) f) l /\ In i (wf_calls f).
+Proof. exact enter_reported. Qed.
+Print Assumptions C09_enter_reported.
 
 (* Clause 3.  Non-critical failures are never transition errors: if no hook task is critical and
    every call whose failing result is taken is non-critical, then — whichever calls fail,
@@ -78,32 +74,27 @@ Theorem C09_consolidated : forall hooks orc m pred s s' t m' f,
 Proof. exact consolidated. Qed.
 Print Assumptions C09_consolidated.
 
-(* "... without harming the core": no history crashes the core. *)
-Definition C09_no_crash_statement : Prop :=
-  forall hooks ops init, model_crashed (snd (run_ops hooks 0 ops (est0 init))) = false.
-
-(* Refuted (finding C09-b): two hook tasks at one weight, the first times out, the second is
-   still awaited, the first terminates after all -> hookTimers[tid].Stop() on a nil timer. *)
-Theorem C09_no_crash_refuted : ~ C09_no_crash_statement.
-Proof. exact no_crash_refuted. Qed.
-Print Assumptions C09_no_crash_refuted.
-
-(* Second way to the same crash (finding C09-d): the trigger command of a hook task fails, its
-   collector goroutine stays behind and later receives the termination of that very task. *)
-Theorem C09_stale_collector_crash :
-  model_crashed (snd (run_ops wit_stale_hooks 0 wit_stale_ops (est0 DEPLOYED))) = true.
-Proof. exact no_crash_refuted_stale. Qed.
-Print Assumptions C09_stale_collector_crash.
-
-(* What holds: with call hooks only, no history crashes the core, however many calls fail at one
-   point (Calls.AwaitAll with its mutex).  Both crashes above need hook tasks.  Missing for the
-   general statement: the hypothesis "no hook task terminates after its time-out while another
-   one of its weight is pending, and no trigger command fails", for which the invariant of the
-   collector loop (hook_loop) over the four-part schedule has not been proved. *)
-Theorem C09_no_crash_partial : forall hooks, calls_only hooks -> forall ops i s,
+(* "... without harming the core": no history crashes the core, whatever fails — any number of
+   calls failing at one point, hook tasks exiting non-zero, terminating involuntarily, timing
+   out, terminating after their time-out, trigger commands failing (former findings C09-b and
+   C09-d, repaired in runTasksAsHooks). *)
+Theorem C09_no_crash : forall hooks ops i s,
   model_crashed (snd (run_ops hooks i ops s)) = false.
-Proof. exact no_crash_calls_only. Qed.
-Print Assumptions C09_no_crash_partial.
+Proof. exact no_crash. Qed.
+Print Assumptions C09_no_crash.
+
+(* the former witnesses, as regression examples: the late termination is ignored and the timed-out
+   critical hook cancels CONFIGURE; a failed trigger command leaves nothing behind *)
+Theorem C09_late_termination_ignored :
+  map (fun x => snd (fst x)) (snd (run_ops wit_late_hooks 0 wit_late_ops (est0 DEPLOYED))) =
+  [RHook [PE (MBefore CONFIGURE) (mkWfail [] [1] true)]].
+Proof. exact wit_late_cancelled. Qed.
+Print Assumptions C09_late_termination_ignored.
+
+Theorem C09_failed_trigger_leaves_nothing :
+  map (fun x => snd (fst x)) (snd (run_ops wit_stale_hooks 0 wit_stale_ops (est0 DEPLOYED))) = [ROk; ROk; ROk].
+Proof. exact wit_stale_clean. Qed.
+Print Assumptions C09_failed_trigger_leaves_nothing.
 
 (* Non-vacuity: 16 calls at one point, 12 critical, all failing (the case that used to kill the
    core): CONFIGURE is cancelled in before_CONFIGURE with one error counting 12; then with only
